@@ -261,6 +261,28 @@ pub fn cmd_c11(tier: &str, out: &str) {
                 }
             }
         }
+        // long runs of a transient fault at one position (retry limits, counters): 2 .. 300 x Interrupted / would-block
+        {
+            let full: Vec<u32> = base.iter().map(|x| *x as u32).collect();
+            let positions: Vec<usize> = vec![0, 1, 8, 10, full.len() / 2, full.len().saturating_sub(1), full.len()];
+            for run in [2usize, 15, 16, 17, 18, 64, 255, 256, 257, 300] {
+                for p in positions.iter().cloned().filter(|p| *p <= full.len()) {
+                    for k in [INT, WB] {
+                        if k == WB && run > 18 {
+                            continue;
+                        }
+                        let mut it = full.clone();
+                        for _ in 0..run {
+                            it.insert(p, k);
+                        }
+                        for api in [0u8, 1] {
+                            fault_record(&mut ks, &it, api);
+                            n += 1;
+                        }
+                    }
+                }
+            }
+        }
         // two faults: exhaustive on the full stream (thorough), random sample (quick); three faults: random
         let full: Vec<u32> = base.iter().map(|x| *x as u32).collect();
         if thorough {
